@@ -17,6 +17,7 @@ import (
 	"fmt"
 	"image"
 	"image/color"
+	"image/draw"
 	"os"
 	"runtime"
 	"strconv"
@@ -432,6 +433,9 @@ func sharedWork(file []byte) {
 			}
 		}
 	}
+	// the CALLER's goroutines each transform their own band (full-width rows, or columns) of images
+	// they share: every call may touch its own band only, whatever the image types
+	bandWork()
 	var wg sync.WaitGroup
 	for k := 0; k < 4; k++ {
 		wg.Add(1)
@@ -452,6 +456,65 @@ func sharedWork(file []byte) {
 		}(k)
 	}
 	wg.Wait()
+}
+
+type subImager interface {
+	draw.Image
+	SubImage(r image.Rectangle) image.Image
+}
+
+func newImg(kind int, r image.Rectangle) subImager {
+	switch kind {
+	case 0:
+		return image.NewRGBA64(r)
+	case 1:
+		return image.NewNRGBA(r)
+	case 2:
+		return image.NewRGBA(r)
+	}
+	return image.NewNRGBA64(r)
+}
+
+func bandWork() {
+	r := image.Rect(0, 0, 24, 40)
+	for sk := 0; sk < 3; sk++ {
+		for dk := 0; dk < 3; dk++ {
+			for _, rowBands := range []bool{true, false} {
+				src := newImg(sk, r)
+				for y := 0; y < 40; y++ {
+					for x := 0; x < 24; x++ {
+						src.Set(x, y, color.NRGBA64{R: uint16(x*2700 + y), G: uint16(y * 1600), B: uint16((x + y) * 1000), A: uint16(65535 - 900*(x%5))})
+					}
+				}
+				ref := newImg(dk, r)
+				srgb.LineariseImage(ref, src, 1)
+				dst := newImg(dk, r)
+				const bands = 4
+				var wg sync.WaitGroup
+				for b := 0; b < bands; b++ {
+					wg.Add(1)
+					go func(b int) {
+						defer wg.Done()
+						br := image.Rect(0, b*10, 24, b*10+10)
+						if !rowBands {
+							br = image.Rect(b*6, 0, b*6+6, 40)
+						}
+						srgb.LineariseImage(dst.SubImage(br).(draw.Image), src.SubImage(br), 1+b%3)
+					}(b)
+				}
+				wg.Wait()
+				for y := 0; y < 40 && !sharedWorkFailed; y++ {
+					for x := 0; x < 24; x++ {
+						if dst.At(x, y) != ref.At(x, y) {
+							fmt.Printf("VALUE-MISMATCH target=srgb.LineariseImage(bands) src=%T dst=%T rowBands=%v: pixel (%d,%d) is %v, the whole-image call gives %v\n", src, dst, rowBands, x, y, dst.At(x, y), ref.At(x, y))
+							sharedWorkFailed = true
+							break
+						}
+					}
+				}
+			}
+		}
+	}
 }
 
 func main() {
